@@ -864,4 +864,18 @@ theorem exp_tail_counts_only_the_tail (h : Hist ℚ) (vs : List ℚ) (acc : Acco
     wsum h.obs (fun _ => 1) (h.imax - b + 1).toNat b = ((vs.countP (fun x => decide (h.bmin + b * h.w < x)) : Nat) : ℝ) :=
   exp_tail_N_counts_raw h vs acc b hb0 hb1
 
+/-- **…and for a tail declared by mass** (`esl_histogram_SetTailByMass(pmass)`, `0 < pmass ≤ 1`, non-empty data, any history): the threshold is the
+    lower bound `φ'` of an occupied-range bin; the exponential fit answers eslOK, location `φ'`, `λ = (1/w)(log(S + N·w) - log S)` with
+    `N = No` = the number of accepted values `> φ'` (`≥ pmass·n`), and `λ` maximises the binned likelihood of exactly those values. -/
+theorem exp_tail_fit_by_mass_is_ml_of_the_raw_tail (h : Hist ℚ) (vs : List ℚ) (acc : Accounts h vs) (hne : vs ≠ []) (p : ℚ) (hp0 : 0 < p) (hp1 : p ≤ 1) :
+    ∃ h' mass, h.setTailByMass p = .val (.ok, h', mass) ∧ h'.no = vs.countP (fun x => decide (h'.phi < x)) ∧ p * vs.length ≤ h'.no ∧
+      (let hR := h'.toR
+       let k := (hR.imax - hR.cmin + 1).toNat
+       let S := wsum hR.obs (fun j => hR.lbound j - hR.phi) k hR.cmin
+       let N : ℝ := ((h'.no : Nat) : ℝ)
+       expFitCompleteBinned hR = .res .ok #[((h'.phi : ℚ) : ℝ), 1 / hR.w * (Real.log (S + N * hR.w) - Real.log S)] ∧
+       (0 < S → 0 < N → ∀ lam' : ℝ, 0 < lam' →
+         llExpBinned S N hR.w lam' ≤ llExpBinned S N hR.w (1 / hR.w * (Real.log (S + N * hR.w) - Real.log S)))) :=
+  exp_tail_fit_by_mass_of_raw_data h vs acc hne p hp0 hp1
+
 end EaselModel.Props.C11
